@@ -560,6 +560,7 @@ func (g *Gen) GenFunc(fn *ssa.Function, spec *FuncSpec) (vc *FnVC, err error) {
 		for _, o := range v.obls {
 			if len(o.Split) == 0 && o.Kind != "split" {
 				o.Split = v.fnCases
+				o.SplitFirst = v.spec.Opts["splitfirst"] == "true" && (o.Kind == "inv-init" || o.Kind == "ensures")
 			}
 		}
 	}
